@@ -1,4 +1,5 @@
 """C01 -- quantize() returns a well-formed, runtime-loadable model or raises."""
+import os
 import re
 import numpy as np
 from vf.gen import models, recipes, data as gdata
@@ -19,10 +20,10 @@ def plan(tier):
   return {'n_cases': 1200 if tier == 'quick' else 24000, 'shards': 16}
 
 
-def lut16_census(mo):
+def int16_census(mo):
   """Mechanism features of an output model used to attribute interpreter aborts."""
   BO = models.BO
-  feats = {'int16_lut_op_tiny_input_scale': False, 'int16_ops': [], 'has_int16': False}
+  feats = {'int16_ops': [], 'has_int16': False}
   for sg in mo.subgraphs:
     for op in sg.operators:
       c = mo.operatorCodes[op.opcodeIndex].builtinCode
@@ -32,10 +33,6 @@ def lut16_census(mo):
         nm = models.CODE_NAMES.get(c, '?')
         if nm not in feats['int16_ops']:
           feats['int16_ops'].append(nm)
-        if c in (BO.TANH, BO.LOGISTIC) and ins and ins[0].type == models.TT.INT16:
-          qp = decode.qparams(ins[0])
-          if qp is not None and float(qp[0][0]) <= 1.01e-4 / 32767:
-            feats['int16_lut_op_tiny_input_scale'] = True
   return feats
 
 
@@ -77,9 +74,12 @@ def check_returned(ctx, spec, run, label, datasets, src_model):
   if errs:
     ctx.count('returned_malformed')
     return mo
-  census = lut16_census(mo)
+  census = int16_census(mo)
   info = {'recipe_label': label, 'census': census, 'recipe': run.recipe, 'model_sha': common.sha(run.out),
           'ops': common.describe_model(spec.content, src_model)}
+
+  from vf.run import abortinfo, driver
+  feeds = {}
 
   def go():
     for s in spec.signatures:
@@ -99,6 +99,10 @@ def check_returned(ctx, spec, run, label, datasets, src_model):
             ii = np.iinfo(d['dtype'])
             x = np.clip(np.rint(x.astype(np.float64) / float(sc[0])) + int(zp[0]), ii.min, ii.max).astype(d['dtype'])
           feed[arg] = x
+        feeds[key] = feed
+        info['model_path'], info['feeds_path'] = abortinfo.save(
+            os.path.join(driver.ROOT, '.work', 'risky'), run.out, feeds)
+        ctx.emit({'ev': 'call', 'case': ctx.case, 'what': 'interp.invoke', 'info': info})
         r(**feed)
         ctx.count('interp_ok')
       except Exception as e:  # pylint: disable=broad-except
@@ -117,9 +121,12 @@ def check_returned(ctx, spec, run, label, datasets, src_model):
 def crash_to_violation(open_call, crash):
   if not open_call or not str(open_call.get('what', '')).startswith('interp.'):
     return None
+  from vf.run import abortinfo, driver
   info = open_call.get('info') or {}
   f = dict(info.get('census') or {})
   f['rc'] = crash['rc']
+  f['stage'] = open_call.get('what')
+  f.update(abortinfo.attribute(info.get('model_path'), info.get('feeds_path'), driver.PY, driver.child_env()))
   return {'kind': 'process_abort', 'features': f,
           'detail': {'recipe': info.get('recipe'), 'ops': info.get('ops'), 'label': info.get('recipe_label'),
                      'stderr_tail': crash['stderr_tail'][-600:]}}
